@@ -67,7 +67,12 @@ func (d *drv) Reset(env *core.Env, b *core.Behaviour) error {
 	} else if env.Opt("para", "0") == "1" {
 		d.para = true
 	}
-	return d.ensureNode(env.Opt("fresh", "0") == "1")
+	if err := d.ensureNode(env.Opt("fresh", "0") == "1"); err != nil {
+		return err
+	}
+	// the genesis of this behaviour's chain: first observation of the term "genesis"
+	d.bindDigest("genesis", d.child.gen)
+	return nil
 }
 
 func (d *drv) ensureNode(fresh bool) error {
@@ -82,10 +87,12 @@ func (d *drv) ensureNode(fresh bool) error {
 		d.child = c
 	}
 	if fresh || !d.child.hasNd || d.child.para != d.para || d.child.plug != d.plug {
-		if _, err := d.child.call(&Cmd{Cmd: "node", Para: d.para, Plugins: d.plug}, callTimeout); err != nil {
+		r, err := d.child.call(&Cmd{Cmd: "node", Para: d.para, Plugins: d.plug}, callTimeout)
+		if err != nil {
 			return err
 		}
 		d.child.hasNd, d.child.para, d.child.plug = true, d.para, d.plug
+		d.child.gen = r.Gen
 	}
 	return nil
 }
@@ -293,6 +300,31 @@ func (d *drv) Apply(s core.Step) (any, any, error) {
 		d.item = nil
 		return nil, nil, nil
 	case "Act":
+		if s.Str("kind") == "chain" {
+			// another chain instance in the long-running process, and one in a fresh process: the
+			// genesis block on an empty database must leave the same local data everywhere
+			r, err := d.child.call(&Cmd{Cmd: "chain", Para: d.para, Plugins: d.plug}, callTimeout)
+			if err != nil {
+				return nil, nil, err
+			}
+			res := d.bindDigest("genesis", r.Gen)
+			c, err := startChild(0)
+			if err != nil {
+				return nil, nil, err
+			}
+			defer c.stop()
+			f, err := c.call(&Cmd{Cmd: "node", Para: d.para, Plugins: d.plug}, callTimeout)
+			if err != nil {
+				return nil, nil, err
+			}
+			if x := d.bindDigest("genesis", f.Gen); x != "same" {
+				res = x
+			}
+			if res != "same" {
+				res = "differs:genesis-local-data"
+			}
+			return res, nil, nil
+		}
 		side := [][]TxSpec{{{Exec: "verifx", Script: []Op{{O: "S", K: "mavl-verifx-" + d.tag + "side", V: "v1|", M: "both"},
 			{O: "L", K: "LODB-verifx-" + d.tag + "side", V: "v1|", M: "ret"}}}}, {{Exec: "none"}}}
 		items := side
@@ -302,7 +334,7 @@ func (d *drv) Apply(s core.Step) (any, any, error) {
 		if _, err := d.child.call(&Cmd{Cmd: "act", Kind: s.Str("kind"), Items: items}, callTimeout); err != nil {
 			return nil, nil, err
 		}
-		return nil, nil, nil
+		return "same", nil, nil
 	case "Run":
 		return d.run(s)
 	case "EndBlock":
@@ -521,15 +553,18 @@ func (d *drv) run(s core.Step) (any, any, error) {
 	term := s.Str("term")
 	var outs []*Outcome
 	var delDigest string
+	genDiff := false
 	if s.Str("proc") == "fresh" {
 		c, err := startChild(gmp)
 		if err != nil {
 			return nil, nil, err
 		}
 		defer c.stop()
-		if _, err := c.call(&Cmd{Cmd: "node", Para: d.para, Plugins: d.plug}, callTimeout); err != nil {
+		nr, err := c.call(&Cmd{Cmd: "node", Para: d.para, Plugins: d.plug}, callTimeout)
+		if err != nil {
 			return nil, nil, err
 		}
+		genDiff = d.bindDigest("genesis", nr.Gen) != "same"
 		for _, b := range d.hist {
 			r, err := c.call(&Cmd{Cmd: "block", Items: b, Mode: d.connectMode(), Reps: 1}, callTimeout)
 			if err != nil {
@@ -581,6 +616,9 @@ func (d *drv) run(s core.Step) (any, any, error) {
 		if x := d.bindDigest(term+"/del", delDigest); x != "same" {
 			det = "differs:local-del-set"
 		}
+	}
+	if genDiff && det == "same" {
+		det = "differs:genesis-local-data"
 	}
 	obs := d.observe(s, outs[len(outs)-1], det)
 	return d.matchOrAlt(s, obs), nil, nil
